@@ -393,6 +393,43 @@ def gen_value(rng, pname, ptype, method):
     raise ValueError('no generator for documented type %r' % ptype)
 
 
+_TARGETS = {}
+
+
+def layout_targets(variant):
+    """group:process specs of every process of a layout, plus the group forms."""
+    if variant not in _TARGETS:
+        from c12_world import VARIANTS, REAL_VARIANTS
+        rows = VARIANTS[variant] if variant < len(VARIANTS) else REAL_VARIANTS[variant - len(VARIANTS)]
+        out = ['%s:%s' % (r[0], r[1]) for r in rows]
+        for g in sorted(set(r[0] for r in rows)):
+            out.extend([g, g + ':*'])
+        _TARGETS[variant] = out
+    return _TARGETS[variant]
+
+
+def layout_states(variant):
+    from c12_world import VARIANTS, REAL_VARIANTS
+    rows = VARIANTS[variant] if variant < len(VARIANTS) else REAL_VARIANTS[variant - len(VARIANTS)]
+    return dict(('%s:%s' % (r[0], r[1]), r[2]) for r in rows)
+
+
+def sweep_tuples(names, ptypes, target):
+    """Well-typed argument tuples aimed at `target`, one per shape of the optional arguments."""
+    defaults = {'wait': [True, False], 'signal': ['HUP', '15'], 'offset': [0], 'length': [10], 'chars': [u'x\u00e9\n'],
+                'data': ['d'], 'type': ['t']}
+    outs = [[]]
+    for n, t in zip(names, ptypes):
+        vals = [target] if n == 'name' else defaults.get(n)
+        if vals is None:
+            return []
+        outs = [o + [v] for o in outs for v in vals]
+    res = [tuple(o) for o in outs]
+    if 'wait' in names:
+        res.append(tuple(outs[0][:names.index('wait')]))      # optional argument omitted
+    return res
+
+
 def live_param_names(facts):
     import inspect
     from c12_rpc import build_live
@@ -448,6 +485,10 @@ def explore_args(chk, pool, facts, cases, meta, counters):
         for moodname, mood in MOODS:
             for variant in range(N_WORLDS):
                 tuples = [p for m, p in CORPUS if m == method]
+                # state sweep: the method aimed at every process (= every process state) of this layout
+                if 'name' in names and method.startswith('supervisor.'):
+                    for target in layout_targets(variant):
+                        tuples.extend(sweep_tuples(names, ptypes, target))
                 for _ in range(per):
                     n = rng.randrange(amin, (amax if amax is not None else amin + 2) + 1)
                     tuples.append(tuple(gen_value(rng, names[i], ptypes[i], method) for i in range(n)))
@@ -494,6 +535,10 @@ def explore_args(chk, pool, facts, cases, meta, counters):
                         continue
                     if polls:
                         counters['deferred'] = counters.get('deferred', 0) + 1
+                    if params and isinstance(params[0], str) and 'name' in names[:1]:
+                        st = layout_states(variant).get(params[0])
+                        if st is not None:
+                            counters.setdefault('_cells', set()).add((method, mood, st))
                     if res2 is not None and any(ord(ch) > 127 for ch in repr(res[1]) + (repr(params) if res[0] == 'fault' else '')):
                         k = 'non-ascii-answer:%s:%s' % ('deferred' if polls else 'immediate', res[0])
                         counters[k] = counters.get(k, 0) + 1
@@ -749,6 +794,58 @@ def explore_ext(chk, wd, logdir, ref, counters):
     return n
 
 
+def explore_raw_xml(chk, logdir, ref):
+    """Request encodings other than what Python's xmlrpclib emits, through the
+    handler's own unmarshaller (loads): no <params> element, <i4> integers,
+    untyped <value>text</value> strings, boolean 0/1, whitespace between tags."""
+    from c12_world import make_world
+
+    def req(method, params_xml):
+        return "<?xml version='1.0'?>\n<methodCall>\n<methodName>%s</methodName>\n%s</methodCall>\n" % (method, params_xml)
+
+    def P(*vals):
+        return '<params>\n%s</params>\n' % ''.join('<param>\n<value>%s</value>\n</param>\n' % v for v in vals)
+    cases = [
+        ('supervisor.getState', (), ''),                                  # no <params> at all
+        ('supervisor.getState', (), '<params></params>'),
+        ('supervisor.getState', (), '<params/>'),
+        ('supervisor.readLog', (0, 10), P('<i4>0</i4>', '<int>10</int>')),
+        ('supervisor.readLog', (-1, 0), P('<i4>-1</i4>', '<i4>0</i4>')),
+        ('supervisor.getProcessInfo', ('g1:p1',), P('g1:p1')),            # untyped value = string
+        ('supervisor.getProcessInfo', ('',), P('<string></string>')),
+        ('supervisor.getProcessInfo', ('',), P('<string/>')),
+        ('supervisor.startProcess', ('g1:p2', False), P('<string>g1:p2</string>', '<boolean>0</boolean>')),
+        ('supervisor.startProcess', ('g1:p2', True), P('g1:p2', '<boolean>1</boolean>')),
+        ('supervisor.signalProcess', ('g1:p1', 'HUP'), P('<string>g1:p1</string>', 'HUP')),
+        ('supervisor.sendProcessStdin', ('g1:p1', u'a<b&c\u00e9'), P('<string>g1:p1</string>', u'<string>a&lt;b&amp;c\u00e9</string>')),
+        ('system.methodHelp', ('supervisor.getState',), P('<string>supervisor.getState</string>')),
+        ('system.multicall', ([{'methodName': 'supervisor.getPID', 'params': []}, {'methodName': 'nope', 'params': []}],),
+         P('<array><data><value><struct><member><name>methodName</name><value>supervisor.getPID</value></member>'
+           '<member><name>params</name><value><array><data></data></array></value></member></struct></value>'
+           '<value><struct><member><name>methodName</name><value><string>nope</string></value></member>'
+           '<member><name>params</name><value><array><data/></array></value></member></struct></value></data></array>')),
+        ('system.multicall', ([{'methodName': 'supervisor.getPID'}],),    # struct without 'params'
+         P('<array><data><value><struct><member><name>methodName</name><value>supervisor.getPID</value></member>'
+           '</struct></value></data></array>')),
+    ]
+    n = 0
+    for mood in (1, -1):
+        for method, params, px in cases:
+            w1 = make_world(logdir, 0, mood)
+            ref[0] = w1
+            exp, _ = w1.call_xml(method, params)
+            w2 = make_world(logdir, 0, mood)
+            ref[0] = w2
+            got, _ = w2.finish(w2.stack.call(method, raw_xml=req(method, px)))
+            n += 1
+            chk.dist('raw-xml')
+            if bad_answer(got) or (got[0], norm(got[1])) != (exp[0], norm(exp[1])) or w1.snapshot() != w2.snapshot():
+                chk.violation({'kind': BAD_KIND if bad_answer(got) else 'equivalent XML-RPC encodings of one call are answered differently',
+                               'method_name': method, 'params': repr(params), 'mood': mood, 'request_xml': req(method, px),
+                               'xml': repr(got), 'xmlrpclib_encoding_answer': repr(exp)})
+    return n
+
+
 HTTP_CALLS = [
     # (method, params, setup)                                      approximate size of the answer
     ('supervisor.getState', (), None),                                       # ~200 B
@@ -798,12 +895,27 @@ def explore_http(chk, wd, logdir, ref, counters):
     n = 0
     ks = [1 << 30, 4096, 1500, 700] if chk.tier == 'quick' else [1 << 30, 65536, 4096, 4095, 1500, 700, 512, 211]
     variants = [0, 5, 7] if chk.tier == 'quick' else [0, 1, 3, 5, 6, 7, 9]
+    jobs = []
     for method, params, setup in HTTP_CALLS:
         for variant in variants:
             if method.startswith('supervisor.startProcessGroup') and variant not in (5, 6):
                 continue
+            if variant == variants[0]:
+                for fr in FRAMINGS:
+                    for k in ks:
+                        jobs.append((1, variant, method, params, setup, fr, k))
+                for mood in (0, -1, 2):          # the same request while the daemon restarts / shuts down / is FATAL
+                    jobs.append((mood, variant, method, params, setup, rng.choice(FRAMINGS), rng.choice(ks)))
+                    jobs.append((mood, variant, method, params, setup, ('1.1', 'close'), rng.choice(ks)))
+            else:
+                jobs.append((1, variant, method, params, setup, rng.choice(FRAMINGS), rng.choice(ks)))
+                jobs.append((1, variant, method, params, setup, ('1.1', 'close'), rng.choice(ks)))
+    refs = {}
+    for mood, variant, method, params, setup, (version, conn), k in jobs:
+        key = (mood, variant, method, repr(params), setup)
+        if key not in refs:
             # reference: the handler's dispatch on an identical world
-            w0 = make_world(logdir, variant, 1)
+            w0 = make_world(logdir, variant, mood)
             ref[0] = w0
             _setup(w0, setup)
             bed0 = HttpBed(w0, wd)
@@ -811,42 +923,40 @@ def explore_http(chk, wd, logdir, ref, counters):
                 direct, _ = w0.call_direct(method, params, max_polls=1000)
             finally:
                 bed0.close()
-            if direct[0] == 'exception':
-                direct = ('http', 500)
-            framings = FRAMINGS if variant == variants[0] else [rng.choice(FRAMINGS), ('1.1', 'close')]
-            for version, conn in framings:
-                for k in (ks if variant == variants[0] else [rng.choice(ks)]):
-                    w = make_world(logdir, variant, 1)
-                    ref[0] = w
-                    _setup(w, setup)
-                    bed = HttpBed(w, wd)
-                    try:
-                        out = bed.post(method, params, version=version, connection=conn, k=k)
-                        keep = (version == '1.1' and conn != 'close') or (version == '1.0' and conn == 'keep-alive')
-                        second = None
-                        if keep and not out['closed'] and out['error'] is None:
-                            second = bed.post('supervisor.getState', (), version=version, connection=conn, k=k, reuse=True)
-                    finally:
-                        bed.close()
-                    n += 1
-                    size = out.get('received') or 0
-                    chk.dist('http:%s:%s:%s' % ('HTTP/' + version, conn or 'default',
-                                                '<1K' if size < 1024 else ('<8K' if size < 8192 else '>=8K')))
-                    rec = {'method_name': method, 'params': repr(params)[:300], 'setup': setup, 'variant': variant,
-                           'http_version': version, 'connection_header': conn, 'bytes_accepted_per_send': k,
-                           'client_received': repr(out['answer'])[:300], 'status': out['status'], 'content_length': out['declared'],
-                           'body_bytes_received': out['received'], 'connection_closed': out['closed'],
-                           'handler_dispatch': repr(direct)[:300]}
-                    a = out['answer']
-                    if bad_answer(a) and not (a == ('http', 500) and direct == ('http', 500)):
-                        chk.violation(dict(rec, kind=BAD_KIND))
-                    elif (a[0], norm(a[1])) != (direct[0], norm(direct[1])):
-                        chk.violation(dict(rec, kind='HTTP channel and handler dispatch disagree'))
-                    elif keep and (out['closed'] or second is None or second['answer'][0] != 'value'):
-                        chk.violation(dict(rec, kind='keep-alive connection was closed or unusable after the answer',
-                                           second_request=repr(second and second['answer'])))
-                    elif not keep and not out['closed']:
-                        chk.violation(dict(rec, kind='connection was not closed after a close/HTTP-1.0 request'))
+            refs[key] = ('http', 500) if direct[0] == 'exception' else direct
+        direct = refs[key]
+        w = make_world(logdir, variant, mood)
+        ref[0] = w
+        _setup(w, setup)
+        bed = HttpBed(w, wd)
+        try:
+            out = bed.post(method, params, version=version, connection=conn, k=k)
+            keep = (version == '1.1' and conn != 'close') or (version == '1.0' and conn == 'keep-alive')
+            second = None
+            if keep and not out['closed'] and out['error'] is None:
+                second = bed.post('supervisor.getAPIVersion', (), version=version, connection=conn, k=k, reuse=True)
+        finally:
+            bed.close()
+        n += 1
+        size = out.get('received') or 0
+        chk.dist('http:%s:%s:%s' % ('HTTP/' + version, conn or 'default',
+                                    '<1K' if size < 1024 else ('<8K' if size < 8192 else '>=8K')))
+        rec = {'method_name': method, 'params': repr(params)[:300], 'setup': setup, 'variant': variant, 'mood': mood,
+               'http_version': version, 'connection_header': conn, 'bytes_accepted_per_send': k,
+               'client_received': repr(out['answer'])[:300], 'status': out['status'], 'content_length': out['declared'],
+               'body_bytes_received': out['received'], 'connection_closed': out['closed'],
+               'handler_dispatch': repr(direct)[:300]}
+        a = out['answer']
+        if bad_answer(a) and not (a == ('http', 500) and direct == ('http', 500)):
+            chk.violation(dict(rec, kind=BAD_KIND))
+        elif (a[0], norm(a[1])) != (direct[0], norm(direct[1])):
+            chk.violation(dict(rec, kind='HTTP channel and handler dispatch disagree'))
+        elif keep and (out['closed'] or second is None or bad_answer(second['answer'])):
+            chk.violation(dict(rec, kind='keep-alive connection was closed or unusable after the answer',
+                               second_request=repr(second and second['answer'])))
+        elif not keep and not out['closed']:
+            chk.violation(dict(rec, kind='connection was not closed after a close/HTTP-1.0 request'))
+    n += explore_raw_xml(chk, logdir, ref)
     return n
 
 # ------------------------------------------------------------------- main
@@ -905,6 +1015,15 @@ def _run(chk, wd, proved):
     elif lm != ('value', facts['listed']):
         chk.violation({'kind': 'system.listMethods differs from the generated list', 'answer': repr(lm)})
 
+    # identical (name, arity, mood, answer, effect) cases are compared once
+    seen, uc, um = set(), [], []
+    for c, m in zip(name_cases, name_meta):
+        if c not in seen:
+            seen.add(c)
+            uc.append(c)
+            um.append(m)
+    chk.note('dispatch cases: %d, distinct: %d' % (len(name_cases), len(uc)))
+    name_cases, name_meta = uc, um
     total = 0
     for part, ctype, fn, cases, meta in [
         ('names', 'name_case', 'check_name', name_cases, name_meta),
@@ -941,7 +1060,17 @@ def _run(chk, wd, proved):
                    'multicall: %d random compositions vs. the same calls issued sequentially; distinct = distinct (answer prefix, '
                    'state-changed) pairs plus distinct (length, polls) multicall shapes'
                    % (n_split, n_args, 12, n_multi))
-    cov['samples'] = name_meta[5:7] + name_meta[n_split + 10:n_split + 12] + multi_meta[3:5]
+    cov['samples'] = name_meta[5:7] + name_meta[-3:-1] + multi_meta[3:5]
+    cells = counters.pop('_cells', set())
+    with_name = [m for m in facts['listed'] if m.startswith('supervisor.') and 'name' in live_param_names(facts)[m][:1]
+                 and m.split('.')[1] not in ('addProcessGroup', 'removeProcessGroup', 'startProcessGroup',
+                                             'stopProcessGroup', 'signalProcessGroup')]
+    want = set((m, mood, st) for m in with_name for mood in (2, 1, 0, -1) for st in (0, 10, 20, 30, 40, 100, 200, 1000))
+    missing = sorted(want - cells)
+    chk.note('method x mood x process-state cells exercised with well-typed arguments: %d of %d' % (len(want) - len(missing), len(want)))
+    if missing:
+        chk.violation({'kind': 'check-machinery: the state sweep no longer reaches every method x mood x process state',
+                       'missing': [list(x) for x in missing[:20]]}, nofail=True)
     for k, v in sorted(counters.items()):
         chk.dist('outcome:' + k, v)
     chk.note('worlds built: %d' % pool.built)
